@@ -17,9 +17,9 @@ open JinjaV.Gen.CtxWrites JinjaV.CtxAudit JinjaV.CtxState
 
 /-- every store the code generator emits targets context.vars / exported_vars / blocks / eval_ctx, the vars of a derived
     context, frame-local dicts, buffers, locals, assignment targets or a namespace attribute — none targets
-    `context.parent`, `environment.*`, a template object or anything else; and namespace attribute stores are guarded -/
+    `context.parent`, `environment.*`, a template object or anything else; and namespace attribute stores are guarded, for every namespace ref of a (tuple) target -/
 theorem render_writes_only_own :
-    (∀ e ∈ emitted, e.cls ∈ allowedEmitted) ∧ nsrefGuarded = true := by decide +kernel
+    (∀ e ∈ emitted, e.cls ∈ allowedEmitted) ∧ nsrefGuarded = true ∧ nsrefGuardCoversEvery = true := by decide +kernel
 
 /-- every store / mutating call in runtime.py and environment.py is on the object's own state, the module cache, a derived
     context, a local container, the template cache, or in configuration API — none is rooted at `self.parent`,
